@@ -27,8 +27,8 @@ ITEM_HARNESS = {
     'types::SourceMap::prefix_source': ['root_setters'], 'types::SourceMap::set_source_root': ['root_setters', 'roundtrip'], 'types::SourceMap::set_source': ['root_setters'],
     'types::SourceMap::get_source': ['root_setters'], 'types::SourceMap::set_source_contents': ['root_setters'], 'types::Token::get_source': ['rewrite', 'roundtrip'],
     'types::Token::get_name': ['rewrite', 'roundtrip'],
-    'types::SourceMapIndex::lookup_token': ['index_flatten'], 'types::SourceMapSection::get_offset': ['index_flatten'],
-    'types::SourceMapIndex::flatten': ['index_flatten'], 'types::SourceMapSectionIter::next': ['index_flatten'], 'types::SourceMapIndex::sections': ['index_flatten'],
+    'types::SourceMapIndex::lookup_token': ['index_flatten', 'index_nested'], 'types::SourceMapSection::get_offset': ['index_flatten'],
+    'types::SourceMapIndex::flatten': ['index_flatten', 'index_nested'], 'types::SourceMapSectionIter::next': ['index_flatten'], 'types::SourceMapIndex::sections': ['index_flatten'],
     'types::SourceMapIndex::get_file': ['index_flatten'], 'types::SourceMapSection::get_sourcemap': ['index_flatten'], 'types::SourceMapIndex::get_section': ['index_flatten'],
     'hermes::SourceMapHermes::get_scope_for_token': ['hermes_scope'],
     'types::SourceMap::adjust_mappings::create_ranges': ['adjust', 'adjust_dups'], 'types::SourceMap::rewrite_with_mapping': ['rewrite'], 'decoder::decode_regular__tail': ['decode_document', 'roundtrip'],
@@ -41,7 +41,7 @@ ITEM_HARNESS = {
 }
 # property -> stand-ins that run on every check (parts of the property outside the verifier's reach so far)
 PROPERTY_BOUNDED = {
-    'C01': ['roundtrip'], 'C03': ['raw_keys'], 'C08': ['index_flatten'], 'C09': ['rewrite', 'hermes_rewrite'],
+    'C01': ['roundtrip'], 'C03': ['raw_keys'], 'C08': ['index_flatten', 'index_nested'], 'C09': ['rewrite', 'hermes_rewrite'],
     'C14': ['hermes_scope'], 'C13': ['root_setters', 'builder_model'], 'C07': ['rmi_roundtrip'], 'C12': ['header'], 'C04': ['ordering'],
     'C10': ['adjust', 'adjust_dups'], 'C05': ['decode_extreme'], 'C02': ['decode_document'], 'C15': ['sourceview'], 'C17': ['function_name'], 'C18': ['discover'], 'C19': ['relpath'], 'C20': ['ram_bundle'],
 }
